@@ -335,3 +335,18 @@ func asScanLoop(info *types.Info, n ast.Node) *scanLoop {
 	}
 	return nil
 }
+
+// isInlineWrapper: the `L_i..: for { ...; break L_i.. }` block that
+// normalisation puts around an inlined body with early returns: executed
+// once, not a loop of the program.
+func (p *Program) isInlineWrapper(file *ast.File, fs *ast.ForStmt) bool {
+	if fs.Cond != nil || fs.Init != nil || fs.Post != nil || len(fs.Body.List) == 0 {
+		return false
+	}
+	ls, ok := p.Parent(file, fs).(*ast.LabeledStmt)
+	if !ok || !strings.HasPrefix(ls.Label.Name, "L_i") {
+		return false
+	}
+	br, ok := fs.Body.List[len(fs.Body.List)-1].(*ast.BranchStmt)
+	return ok && br.Tok == token.BREAK && br.Label != nil && br.Label.Name == ls.Label.Name
+}
